@@ -225,6 +225,11 @@ func (e *decryptPlugin) PostReadCallBody(ctx erpc.ReadCtx) *erpc.Status {
 
 	ctx.Swap().Delete(encrypt_rawbody)
 	ctx.Input().SetBody(rawbody)
+	if rawbody == nil {
+		// the receiver does not want the body (e.g. a call with a nil result): there is
+		// nothing to decode into, and UnmarshalBody would ask the binder for a body again
+		return nil
+	}
 	err = ctx.Input().UnmarshalBody(bodyBytes)
 	if err != nil {
 		return erpc.NewStatus(e.statCode, "unmarshal raw body error", err.Error())
